@@ -27,7 +27,8 @@ func VerifH_SYS_C09() {
 	}
 	cli, err := NewReconnectClient(b, WithReconnectWait(base, max), WithTimeout(10*unit))
 	verifAssert(err == nil, "SYS.new_client")
-	stopKind := verifChoice("stop", 3) // 0 none, 1 Disconnect, 2 cancel the first context
+	stopKind := verifChoice("stop", 4) // 0 none, 1 Disconnect, 2 cancel the first context, 3 cancel, then Disconnect
+	stopAny := verifParam("stopany", 0) == 1
 	ctx, cancel := context.WithCancel(context.Background())
 	defer cancel()
 	stopped := false
@@ -35,16 +36,26 @@ func VerifH_SYS_C09() {
 	dialsAtStop := -1
 	if stopKind != 0 {
 		go func() {
-			verifPause()
+			if stopAny {
+				verifPauseAny() // at any scheduling point (one delay), e.g. exactly while the connection is being established
+			} else {
+				verifPause()
+			}
 			stopCalled = true
 			verifLock()
 			dialsAtStop = b.dials
 			verifUnlock()
 			verifEvent("app:stop")
-			if stopKind == 1 {
+			switch stopKind {
+			case 1:
 				_ = cli.Disconnect(context.Background())
-			} else {
+			case 2:
 				cancel()
+			case 3:
+				cancel()
+				verifPause()
+				verifEvent("app:disconnect-after-cancel")
+				_ = cli.Disconnect(context.Background())
 			}
 			stopped = true
 			verifEvent("app:stopped")
@@ -63,13 +74,13 @@ func VerifH_SYS_C09() {
 		if stopKind == 1 && stopped {
 			verifAssert(b.dials == dialsAtStop, "C09.no_dial_after_disconnect")
 		}
-		if stopKind == 2 && stopped {
+		if stopKind >= 2 && stopped {
 			verifAssert(connectReturned, "C09.connect_returns_after_cancel")
 			if connectReturned && connErr != nil {
 				verifAssert(errors.Is(connErr, context.Canceled), "C09.cancelled_connect_reports_context_error")
 			}
 		}
-		if stopKind == 2 && stopped && !connected {
+		if stopKind >= 2 && stopped && !connected {
 			// cancelled before the first connection succeeded: never dials again
 			verifAssert(b.dials == dialsAtStop, "C09.no_dial_after_cancel_before_first_connection")
 		}
